@@ -49,3 +49,16 @@ Proof.
   destruct helper_guards as [_ Hg]. rewrite Hg. unfold aesctr_stream. cbn [andb].
   destruct (Nat.eqb iv block); cbn; discriminate.
 Qed.
+
+(* ---------- fixed-size conversions ---------- *)
+Lemma fixed_size_safe len size : fixed_size true len size <> SlicePanic.
+Proof. unfold fixed_size. cbn [andb]. destruct (Nat.eqb len size); cbn [negb]; discriminate. Qed.
+
+Lemma group_secret_safe len : fixed_size group_secret_length_guard len 32 <> SlicePanic.
+Proof. destruct fixed_size_guards as [Hg _]. rewrite Hg. apply fixed_size_safe. Qed.
+
+Lemma push_nonce_safe len : fixed_size push_nonce_length_checked len 24 <> SlicePanic.
+Proof. destruct fixed_size_guards as [_ Hg]. rewrite Hg. apply fixed_size_safe. Qed.
+
+Lemma fixed_size_unguarded_panics len size : len <> size -> fixed_size false len size = SlicePanic.
+Proof. intros H. unfold fixed_size. cbn [andb]. destruct (Nat.eqb_spec len size); [contradiction | reflexivity]. Qed.
